@@ -4,7 +4,7 @@
 # check raised a VIOLATION. Never touches /repo's working tree.
 cd "$(dirname "$0")/.."
 IDS="$*"
-[ -n "$IDS" ] || IDS=$(ls seeded | grep -v INDEX)
+[ -n "$IDS" ] || IDS=$(ls seeded | grep -v INDEX | grep -v rejected)
 for id in $IDS; do
 	d="seeded/$id"
 	[ -f "$d/patch.diff" ] || continue
